@@ -652,7 +652,7 @@ def template_source(rng, ver=None):
     c2 = const_src(rng, 2)
     fs = frozenset_test_src(rng, 1)
     p = params[0] if params else "None"
-    kind = rng.choice(["def", "async", "gen", "asyncgen", "lambda", "comp", "class", "closure", "module", "deaddef", "annot"])
+    kind = rng.choice(["def", "async", "gen", "asyncgen", "lambda", "comp", "class", "closure", "module", "deaddef", "annot", "nestedclass", "longline"])
     fut = "from __future__ import annotations\n" if rng.chance(0.2) else ""
     if kind == "def":
         src = "def f(%s):\n    %s\n    x = %s\n    return (x in %s, %s)\n" % (sig, doc or "pass", c1, fs, c2)
@@ -676,6 +676,15 @@ def template_source(rng, ver=None):
         src = "def f(%s):\n    %s\n    v = %s\n    def g(w=%s):\n        nonlocal v\n        v = (w, %s)\n        return lambda: (v, w)\n    return g\n" % (sig, doc or "pass", c1, c2, p)
     elif kind == "deaddef":
         src = "def f(%s):\n    return %s\n    def dead(a):\n        return a in %s\n    x = %s\n" % (sig, c1, fs, c2)
+    elif kind == "nestedclass":
+        # a class body nested in a method: __class__ is a FREE variable of the inner class body (read from the
+        # enclosing method's cell) and at the same time a CELL of it (its own method uses super())
+        src = ("class A(B):\n    %s\n    def f(self, %s):\n        class Inner(A):\n            y = __class__\n            z = %s\n"
+               "            def g(self):\n                return super().g(), __class__\n        return Inner, super().f()\n") % (doc or "pass", sig or "q=0", c1)
+    elif kind == "longline":
+        # more than 255 bytes of bytecode on one line, then a big forward or backward line step
+        gap = rng.choice([128, 129, 200, 256, 300])
+        src = "y = x" + " + x" * rng.choice([90, 140]) + "\n" * gap + "z = (y,\n" + "\n" * rng.choice([0, 127, 128, 255]) + "     %s)\n" % c1
     elif kind == "annot":
         src = "def f(%s) -> 'R':\n    v: int = %s\n    return v\nw: List[int] = %s\n" % (sig, c1, c2)
     else:
